@@ -8,6 +8,7 @@ use vcore::runner::*;
 
 mod c01;
 mod c16;
+mod parsers;
 
 pub struct CheckDef {
     pub id: &'static str,
@@ -20,6 +21,10 @@ fn checks() -> Vec<CheckDef> {
     vec![
         CheckDef { id: "C01", level: "exploration", run: c01::run_c01, replay: c01::replay_c01 },
         CheckDef { id: "C03", level: "exploration", run: c01::run_c03, replay: c01::replay_c03 },
+        CheckDef { id: "C04", level: "exploration", run: parsers::run_c04, replay: parsers::replay_c04 },
+        CheckDef { id: "C05", level: "exploration", run: parsers::run_c05, replay: parsers::replay_c05 },
+        CheckDef { id: "C06", level: "exploration", run: parsers::run_c06, replay: parsers::replay_c06 },
+        CheckDef { id: "C07", level: "fault_enumeration", run: parsers::run_c07, replay: parsers::replay_c07 },
         CheckDef { id: "C16", level: "exploration", run: c16::run, replay: c16::replay },
     ]
 }
